@@ -69,6 +69,21 @@ def register(reg):
                  ("envelope", "implies(not (self.clamp_to_zero and nr2() > self._clamp_sigma_sqr), "
                   "result == self._density.evaluate(z) * (exp(-0.5 * nr2()) / (2 * M_PI * sx() * sy())))")],
         modifies=[])
+    # _populate_stopping_data_cache: the list rebuilt after every change holds, for every plasma species in composition order, the pair
+    # (species, stopping rate of the CURRENT atomic data source for the current beam element and that species)
+    PS = {"comp()": "as_seq(self._plasma._composition)", "nsp()": "length(comp())", "sps(q)": "typed(comp()[q], 'Species')",
+          "rate(q)": "self._atomic_data.beam_stopping_rate(self._beam._element, sps(q).element, sps(q).charge)",
+          "SD()": "self._stopping_data", "ent(q)": "as_seq(SD()[q])"}
+    reg.contract(A, "SingleRayAttenuator._populate_stopping_data_cache", PROP, attrs={"_stopping_data": "seq:ref"}, ghost=PS,
+        externals={'.beam_stopping_rate': {'kind': 'pure', 'result': 'ref:BeamStoppingRate', 'doc': 'atomic data provider: beam stopping rate'}},
+        raises_any=["ValueError"],
+        loops={0: dict(index='m', invariant=["0 <= m", "not is_none(SD())", "not alloc0(SD())", "older(SD())", "length(SD()) == m",
+                                             "forall(q, 0 <= q and q < m, older(SD()[q]) and not alloc0(SD()[q]))",
+                                             "forall(q, 0 <= q and q < m, same(ent(q)[0], sps(q)) and same(ent(q)[1], rate(q)))",
+                                             "unchanged('_atomic_data:ref') and unchanged('_beam:ref') and unchanged('_plasma:ref')"])},
+        ensures=[("one_entry_per_species", "length(SD()) == nsp()"),
+                 ("rates_of_current_atomic_data", "forall(q, 0 <= q and q < nsp(), same(ent(q)[0], sps(q)) and same(ent(q)[1], rate(q)))")])
+
     sg = {"sp(j)": "typed(as_seq(self._stopping_data[j])[0], 'Species')", "cf(j)": "typed(as_seq(self._stopping_data[j])[1], 'BeamStoppingRate')",
           "ei(j)": "EvAmuToMS.inv(objsub(beam_velocity, %s).get_length())" % vel("sp(j)"), "n()": "length(self._stopping_data)"}
     reg.contract(A, "SingleRayAttenuator._beam_stopping", PROP, sorts=dict(P3, beam_velocity="ref:Vector3D!"), attrs={"_stopping_data": "seq:ref"},
@@ -163,3 +178,35 @@ def _lemmas(ctx):
 
 
 LEMMAS = [_lemmas]
+
+
+def native_replay(ctx, o):
+    """Attenuator obligations: history replay on a real scene - sample the beam density, replace the atomic data source by one with a
+    four times larger stopping rate, sample again; compared with a beam built from scratch with the final atomic data."""
+    if 'SingleRayAttenuator' not in o.name:
+        return None
+    import os
+    from replaylib.native import run_native
+    scene = open(os.path.join(ctx['verif'], 'replaylib', 'beam_scene.py')).read()
+    code = scene + '''
+class _Stop4(BeamStoppingRate):
+    def evaluate(self, energy, density, temperature):
+        return 4e-13
+class Data4(AtomicData):
+    def beam_stopping_rate(self, beam_ion, plasma_ion, charge):
+        return _Stop4()
+d0 = beam.density(0, 0, 3.0)
+beam.atomic_data = Data4()
+d1 = beam.density(0, 0, 3.0)
+b2 = Beam(parent=world, transform=translate(0.6, 0, -2))
+b2.plasma = plasma; b2.atomic_data = Data4(); b2.energy = 60000; b2.power = 1e6; b2.element = elements.deuterium
+b2.sigma = 0.05; b2.divergence_x = 0.5; b2.divergence_y = 0.5; b2.length = 5.0
+b2.attenuator = SingleRayAttenuator(clamp_to_zero=False)
+d2 = b2.density(0, 0, 3.0)
+print(json.dumps({"density_first_atomic_data": d0, "density_after_replacing_atomic_data": d1, "density_fresh_beam_with_new_atomic_data": d2,
+                  "equal": abs(d1 - d2) <= 1e-9 * abs(d2)}))
+'''
+    out = run_native(ctx, code)
+    return {'confirmed': bool(out) and out.get('equal') is False, 'observed': out,
+            'input': 'beam.density(0,0,3); beam.atomic_data = <source with stopping rate 4e-13>; beam.density(0,0,3)',
+            'expected': 'density equals that of a beam built from scratch with the new atomic data source'}
